@@ -18,4 +18,6 @@ class BuiltinNameSanitizer(NameSanitizer):
             return ""
 
         first_letter = name[0] if name[0] in string.ascii_letters else "_"
-        return first_letter + self._BAD_CHARS.sub("", name[1:].translate(self._TRANSLATE_MAP))
+        rest = self._BAD_CHARS.sub("", name[1:].translate(self._TRANSLATE_MAP))
+        # ``\w`` matches characters that can not be a part of identifier (e.g. "²"), they must be dropped too
+        return first_letter + "".join(char for char in rest if ("_" + char).isidentifier())
